@@ -159,6 +159,18 @@ def generate(rng, prop='C08'):
             d += gen_payload(rng, mode, enc) or u'x'
         ops = [op if op['op'] != 'writelines' else dict(op, op='write', d=''.join(op['d'])) for op in ops]
         ops.insert(rng.randint(0, len(ops) - 1), {'op': rng.choice(['send', 'send', 'sendline', 'write']), 'd': d})
+    if rng.random() < 0.2 and len(ops) >= 2:
+        # the caller re-tunes a long-lived object between calls: another log file (or none), another line separator,
+        # another delay before sending.  Each log object must hold the transcript of exactly the period it was attached
+        for _ in range(rng.randint(1, 3)):
+            k = rng.random()
+            if k < 0.6:
+                op = {'op': 'setlog', 'name': rng.choice(['logfile', 'logfile_read', 'logfile_send']), 'to': rng.choice(['new', 'new', 'none'])}
+            elif k < 0.85:
+                op = {'op': 'setattr', 'k': 'linesep', 'v': rng.choice(['\n', '\r\n', '\r', ';'])}
+            else:
+                op = {'op': 'setattr', 'k': 'delaybeforesend', 'v': rng.choice([None, 0.0, 0.002])}
+            ops.insert(rng.randint(0, len(ops) - 1), op)
     if tr in ('pty', 'fd') and rng.random() < 0.2:
         # some reads are awaited (asyncio protocol path: data_received decodes and logs), mixed with blocking ones
         for op in ops:
@@ -242,9 +254,11 @@ def run(scn, prop=None):
                 setattr(child, attr, scn[attr])
         ctr = [0]
         logs = {}
+        periods = {}                # name -> [[log object, first event index, end event index or None], ...]
         for name in scn.get('logs', []):
             logs[name] = SeqLog(ctr, name)
             setattr(child, name, logs[name])
+            periods[name] = [[logs[name], 0, None]]
         st = child.string_type
         # reference encoder state spans the whole history (stateful codecs)
         refenc = codecs.getincrementalencoder(enc)(scn.get('errors', 'strict')) if enc else None
@@ -308,6 +322,27 @@ def run(scn, prop=None):
             try:
                 if kind == 'gap':
                     w.sleep(op['dt'])
+                elif kind == 'setlog':
+                    if op.get('name') not in ('logfile', 'logfile_read', 'logfile_send') or op.get('to') not in ('new', 'none'):
+                        raise HarnessError('bad setlog op')
+                    name = op['name']
+                    if periods.get(name) and periods[name][-1][2] is None:
+                        periods[name][-1][2] = len(events)
+                    if op['to'] == 'new':
+                        lg = SeqLog(ctr, name)
+                        setattr(child, name, lg)
+                        periods.setdefault(name, []).append([lg, len(events), None])
+                    else:
+                        setattr(child, name, None)
+                    w.probe('log_file_switched_between_calls')
+                elif kind == 'setattr':
+                    if op.get('k') == 'linesep':
+                        child.linesep = r.sconv(op['v'], None)
+                    elif op.get('k') == 'delaybeforesend':
+                        child.delaybeforesend = op['v']
+                    else:
+                        raise HarnessError('bad setattr op')
+                    w.probe('attribute_changed_between_calls')
                 elif kind == 'adrain':
                     aio['await'] = True
                     try:
@@ -437,35 +472,45 @@ def run(scn, prop=None):
                 truth = taken if enc is None else codecs.getincrementaldecoder(enc)(scn.get('errors', 'strict')).decode(taken, False)
             except UnicodeError:
                 truth = None
-            if truth is not None and aio['loop'] is not None and logs and st().join(want_read) != truth:
+            if truth is not None and aio['loop'] is not None and logs and st().join(want_read) != truth and \
+                    all(len(v) == 1 and v[0][2] is None for v in periods.values()):
                 # in a history with awaited reads the chunk list is what reached _log(..., 'read'): anything the protocol
                 # took from the descriptor without logging it shows up here, whichever log file is set
                 V('C11.read_truth', 'text logged as read is not the decoding of the bytes read from the transport',
                   got=st().join(want_read)[-60:], want=truth[-60:], awaited=True)
-            elif truth is not None and 'logfile_read' in logs:
+            elif truth is not None and 'logfile_read' in logs and len(periods.get('logfile_read', [])) == 1 and \
+                    periods['logfile_read'][0][2] is None:
                 ws = logs['logfile_read'].writes()
                 if all(type(x) is st for x in ws):
                     text = st().join(ws)
                     if (not truth.startswith(text)) if tr == 'popen' else (text != truth):
                         V('C11.read_truth', 'logfile_read is not the decoding of the bytes read from the transport',
                           got=text[-60:], want=truth[-60:], awaited=aio['loop'] is not None)
-            for name, lg in logs.items():
+            for name, plist_ in sorted(periods.items()):
+              for lg, ev_a, ev_b in plist_:
                 ws = [x for x in lg.writes()]
                 bad = [type(x).__name__ for x in ws if type(x) is not st]
                 if bad:
                     V('C11.type', '%s received %s in %s mode' % (name, sorted(set(bad)), st.__name__), log=name)
                     continue
                 text = st().join(ws)
+                span = events[ev_a:ev_b]
+                part = len(plist_) > 1 or ev_a != 0 or ev_b is not None
                 if name == 'logfile_read':
-                    if text != st().join(want_read):
-                        V('C11.read_log', 'logfile_read differs from the text delivered to matching', got=text, want=st().join(want_read))
+                    want_t = st().join(e[1] for e in span if e[0] == 'r')
+                    if text != want_t:
+                        V('C11.read_log', 'logfile_read differs from the text delivered to matching%s' % (' while it was attached' if part else ''),
+                          got=text, want=want_t)
                 elif name == 'logfile_send':
-                    if text != st().join(sendlog):
-                        V('C11.send_log', 'logfile_send differs from what the send family was asked to send', got=text, want=st().join(sendlog))
+                    want_t = st().join(e[1] for e in span if e[0] == 's')
+                    if text != want_t:
+                        V('C11.send_log', 'logfile_send differs from what the send family was asked to send%s' % (' while it was attached' if part else ''),
+                          got=text, want=want_t)
                 else:
-                    if text != st().join(e[1] for e in events):
-                        V('C11.logfile', 'logfile differs from reads and sends merged in operation order',
-                          got=text, want=st().join(e[1] for e in events))
+                    want_t = st().join(e[1] for e in span)
+                    if text != want_t:
+                        V('C11.logfile', 'logfile differs from reads and sends merged in operation order%s' % (' while it was attached' if part else ''),
+                          got=text, want=want_t)
                 # each write flushed before the next write
                 pend = False
                 for e in lg.events:
